@@ -84,10 +84,15 @@ def circuits(ctx):
         import circuitgraph as cg
 
         c = gen.rand_circuit(r, n_in=r.randint(2, 3), n_gates=r.randint(2, 5), max_fanin=3)
-        c.add("ffq", "buf", output=True)
-        nets = sorted(n for n in c.nodes() if n != "ffq")
+        nets = sorted(c.nodes())
         rs = r.choice(nets)
-        c.add_blackbox(cg.BlackBox("srff", ["R", "S", "CK"], ["Q"]), "u_sr", {"R": rs, "S": rs, "CK": r.choice(nets), "Q": "ffq"})
+        g = c.graph
+        g.add_node("ffq", type="buf", output=True)
+        c.blackboxes["u_sr"] = cg.BlackBox("srff", ["R", "S", "CK"], ["Q"])
+        for pn in ("R", "S", "CK"):
+            g.add_node("u_sr." + pn, type="bb_input", output=False)
+        g.add_node("u_sr.Q", type="bb_output", output=False)
+        g.add_edges_from([(rs, "u_sr.R"), (rs, "u_sr.S"), (r.choice(nets), "u_sr.CK"), ("u_sr.Q", "ffq")])
         yield "PINS", proj(c)
     for j in range(80 if ctx.quick else 2000):
         r = ctx.rng("C03g3", j)
